@@ -219,7 +219,7 @@ func init() {
 			do(`def b "nm" { NAME = "label"; id = NAME; print NAME; def TYPE {}; print TYPE; t = TYPE }`)
 			do(`def b "nm" { def NAME "x" {}; def in { print NAME; print TYPE; TYPE = 3; y = TYPE } }`)
 			for _, sc := range gen.ScaledFamilies(false) {
-				if strings.HasPrefix(sc.Name, "manyblocks-") || strings.HasPrefix(sc.Name, "constpool-bind") || strings.HasPrefix(sc.Name, "nest") {
+				if strings.HasPrefix(sc.Name, "manyblocks-") || strings.HasPrefix(sc.Name, "constpool-bind") || strings.HasPrefix(sc.Name, "nest") || strings.HasPrefix(sc.Name, "stackdepth") || strings.HasPrefix(sc.Name, "atlimit") {
 					do(sc.Src)
 				}
 			}
